@@ -381,10 +381,11 @@ def rules(repo, tier):
     from ..optional import rule_optional
     from ..mode import mode_rules
     from ..callsig import rule_callsig
+    from ..docsig import rule_docsig
     from ..axisdefault import rule_axisdefault
     return list(_rules_core(repo, tier)) + [rule_memo(repo, 'C15.MEMO', 'history independence: nothing computed from the contents of a tensor argument is kept '
                                                       'under the identity, address or version of that tensor, in module-level storage, or published from a generator '
                                                       'before it is complete - a later call with the same object and other contents must not be answered from it',
                                                       ['pypose.module.dynamics'], floor=3),
-            rule_optional(repo, 'C15.OPT', ['pypose.module.dynamics'])] + mode_rules(repo, 'C15', ['pypose.module.dynamics']) + [rule_callsig(repo, 'C15.SIG', ['pypose.module.dynamics'])] + [
+            rule_optional(repo, 'C15.OPT', ['pypose.module.dynamics'])] + mode_rules(repo, 'C15', ['pypose.module.dynamics']) + [rule_callsig(repo, 'C15.SIG', ['pypose.module.dynamics']), rule_docsig(repo, 'C15.DOC', ['pypose.module.dynamics'])] + [
             rule_axisdefault(repo, 'C15.AXDEF', ['pypose.module.dynamics'])]
